@@ -37,6 +37,7 @@ inductive Check where
   | out (fixed : Nat)     -- AbstractOut with `_num_fixed_args() = fixed`
   | nAudio (n : Nat)      -- `_check_n_inputs(n)`
   | srFirst               -- `_check_sr_as_first_input`
+  | duty                  -- `Duty._check_inputs`: demand-rate `dur` ⇒ the reset rate is checked first
 deriving DecidableEq, Repr, Inhabited
 
 structure Obj where
@@ -600,6 +601,15 @@ def checkObj (x : Obj) : M (Option String) := do
     match x.inputs with
     | [] => throw .keyError
     | i :: _ => if (← inpRate i) != some x.rate then pure (some "first input rate") else pure (checkValid x)
+  | .duty =>
+    match x.inputs with
+    | d :: r :: _ =>
+      if (← inpRate d) == some Rate.demand then
+        let rr ← inpRate r
+        if rr != some Rate.demand && rr != some Rate.scalar && rr != some x.rate then pure (some "reset rate")
+        else pure (checkValid x)
+      else pure (checkValid x)
+    | _ => throw .keyError
 
 structure Unit' where
   cls : String
